@@ -50,7 +50,9 @@ type gen struct {
 	nid    int
 }
 
-var allLits = []string{"foo", "foobar", "bar", "fo", ":x", "*y", "f:o", "qux"} //nolint:gochecknoglobals
+// literals: byte-prefix related ones, escaped ones (a leading ':' or '*' is written with a backslash
+// in the expression), also as the whole segment
+var allLits = []string{"foo", "foobar", "bar", "fo", ":x", "*y", "f:o", "qux", "*", ":"} //nolint:gochecknoglobals
 
 func (g *gen) pick(s []string) string { return s[g.rng.Intn(len(s))] }
 
@@ -218,11 +220,35 @@ func (g *gen) rule(src string, pool *[][]Tok) Rule {
 			}
 		}
 
-		if g.rng.Intn(6) == 0 { // a second route
-			e2 := g.expr()
-			*pool = append(*pool, e2)
-			r.Routes = append(r.Routes, Route{Expr: e2, Params: []Matcher{}})
+	}
+
+	if g.rng.Intn(6) == 0 { // a second route, with its own path_params
+		e2 := g.expr()
+		if shapeKey(e2) == shapeKey(e) {
+			// the same path twice in one rule is not a meaningful definition (left open)
+			e2 = append(e2, Tok{T: "lit", V: g.pick(g.lits)})
+			if last := e2[len(e2)-2]; last.T == "free" {
+				e2 = e2[:len(e2)-1]
+				e2[len(e2)-1] = Tok{T: "lit", V: g.pick(g.lits)}
+			}
 		}
+
+		*pool = append(*pool, e2)
+		rt := Route{Expr: e2, Params: []Matcher{}}
+
+		if g.p.Rich {
+			pm := ParamMatchers()
+
+			for _, t := range e2 {
+				if t.T != "lit" && t.N != "" && g.rng.Intn(2) == 0 {
+					m := pm[g.rng.Intn(len(pm))]
+					m.Name = t.N
+					rt.Params = append(rt.Params, m)
+				}
+			}
+		}
+
+		r.Routes = append(r.Routes, rt)
 	}
 
 	return r
